@@ -226,7 +226,8 @@ class FuncLowerer:
         u = self.u
         rec = u.records.get(recname)
         if rec is None:
-            if recname in u.cfg.opaque_records or recname.startswith('std::pmr::memory_resource'):
+            from cxx2c import PREDEFINED_STRUCTS
+            if recname in u.cfg.opaque_records or recname.startswith('std::pmr::memory_resource') or recname in PREDEFINED_STRUCTS:
                 return None
             abort('destructor of unknown record %s' % recname, where)
         dd = rec.get('definitionData', {})
@@ -417,6 +418,11 @@ class FuncLowerer:
         ctor_sig = e.get('ctorType', {}).get('qualType')
         rec = u.records.get(ty[1])
         if rec is None:
+            from cxx2c import PREDEFINED_STRUCTS
+            if ty[1] in PREDEFINED_STRUCTS and not args:
+                return '(void)0 /* trivial default ctor of C struct %s */' % ty[1]
+            if ty[1] in PREDEFINED_STRUCTS and len(args) == 1:
+                return '(*(%s) = %s)' % (ptr, self.expr(args[0]))
             abort('construct of unknown record %s' % ty[1], e)
         ctor = self.find_ctor(rec, ctor_sig, e)
         if ctor is None:
@@ -629,7 +635,10 @@ class FuncLowerer:
             core = core['inner'][0]
         if s.get('valueCategory') == 'lvalue' and core.get('kind') in ('CallExpr', 'CXXMemberCallExpr', 'CXXOperatorCallExpr'):
             # discarded-value lvalue (e.g. a call returning a reference): C++ does not read it
-            return [pad + '(void)' + self.addr(s) + ';']
+            x = self.expr(s)
+            if x.startswith('(*') and balanced(x[2:-1]):
+                return [pad + '(void)' + addr_of(x) + ';']
+            return [pad + x + ';']
         return [pad + self.expr(s) + ';']
 
     def stmt_block(self, s, ind):
@@ -811,6 +820,8 @@ class FuncLowerer:
         rd = e['referencedDecl']
         k = rd.get('kind')
         u = self.u
+        if k == 'VarDecl' and rd.get('name') in MEMORY_ORDER and 'memory_order' in rd.get('type', {}).get('qualType', ''):
+            return str(MEMORY_ORDER[rd['name']])
         if k in ('ParmVarDecl', 'VarDecl'):
             decl = self.ix.byid.get(rd['id'])
             if self.closure is not None and rd['id'] in self.closure:
@@ -1138,6 +1149,11 @@ class FuncLowerer:
     # -- construction
     def e_CXXConstructExpr(self, e):
         ty = self.u.type_of(e)
+        from cxx2c import PREDEFINED_STRUCTS
+        if ty[0] == 'rec' and ty[1] not in self.u.records and ty[1] in PREDEFINED_STRUCTS and len(e.get('inner', [])) == 1:
+            return self.expr(e['inner'][0])     # trivial copy of a plain C struct
+        if ty[0] == 'b' and len(e.get('inner', [])) == 1:
+            return self.expr(e['inner'][0])     # copy of a scalar-modelled record
         if ty[0] == 'rec':
             t = self.fresh_tmp(ty)
             return '(%s, %s)' % (self.construct_into('&' + t, ty, e), t)
@@ -1327,6 +1343,18 @@ class FuncLowerer:
         if name in ('operator new', 'operator delete'):
             a = [self.expr(x) for x in args]
             return 'vf_%s_%d(%s)' % (OPERATOR_NAMES[name], len(a), ', '.join(a))
+        of = getattr(self.u.cfg, 'outside_funcs', {})
+        if name in of:
+            cn = of[name]
+            fty = u.resolve(parse_type(rd['type']['qualType']))
+            ps = [('ptr', p[1]) if u.is_ref(p) else p for p in fty[2]]
+            ret = fty[1]
+            proto = 'extern ' + u.ctype(('ptr', ret[1]) if u.is_ref(ret) else ret, '%s(%s)' % (cn, ', '.join(u.ctype(p) for p in ps) or 'void')) + ';'
+            if cn not in u.extern_protos:
+                u.extern_protos[cn] = proto
+                u.report['externs'].append({'cxx': name, 'c': cn, 'virtual': False, 'type': rd['type']['qualType']})
+            a = self.call_args(None, args, fty[2])
+            return self.wrap_ref_result('%s(%s)' % (cn, ', '.join(a)), ret)
         h = getattr(self.u.cfg, 'std_call_hook', None)
         if h is not None:
             r = h(self, rd, name, args, e)
@@ -1422,6 +1450,14 @@ class FuncLowerer:
         a0t = u.strip_ref(u.type_of(args[0])) if args else None
         if a0t is not None and a0t[0] == 'atomic':
             return self.atomic_operator(name, args, e, a0t)
+        if decl is None and a0t is not None:
+            from cxx2c import PREDEFINED_STRUCTS
+            opsym = name[len('operator'):]
+            scalar_model = a0t[0] == 'b' and any(v == a0t[1] for v in u.cfg.scalar_records.values())
+            if scalar_model and len(args) == 2 and opsym in ('+', '-', '<', '>', '<=', '>=', '==', '!=', '+=', '-=', '='):
+                return '(%s %s %s)' % (self.expr(args[0]), opsym, self.expr(args[1]))
+            if opsym == '=' and a0t[0] == 'rec' and a0t[1] in PREDEFINED_STRUCTS and len(args) == 2:
+                return '(%s = %s)' % (self.expr(args[0]), self.expr(args[1]))
         if decl is None:
             h = getattr(self.u.cfg, 'operator_call_hook', None)
             if h is not None:
@@ -1457,6 +1493,12 @@ class FuncLowerer:
             return n['referencedDecl'].get('name')
         if n.get('kind') == 'ArraySubscriptExpr':
             return self.atomic_field_name(n['inner'][0]) + '[]'
+        if n.get('kind') == 'CXXMemberCallExpr':
+            cal = n['inner'][0]
+            if cal.get('kind') == 'MemberExpr':
+                return '%s.%s()' % (self.atomic_field_name(cal['inner'][0]), cal.get('name'))
+        if n.get('kind') == 'CXXThisExpr':
+            return 'this'
         if n.get('kind') in ('CallExpr', 'CXXMemberCallExpr', 'CXXOperatorCallExpr'):
             return 'call'
         return n.get('kind')
